@@ -106,8 +106,15 @@ def run(ctx):
     ctx.saw(tok)
     ctx.saw(tinit)
     keys = set()
-    for d in walk_no_nested(tinit.node):
-        if isinstance(d, ast.Dict) and d.keys and all(isinstance(k, ast.Constant) and isinstance(k.value, str) for k in d.keys):
+    # the table: a dict display in the constructor, or a class / module constant the constructor reads
+    cands = [d for d in walk_no_nested(tinit.node) if isinstance(d, ast.Dict)]
+    for x in walk_no_nested(tinit.node):
+        if isinstance(x, ast.Attribute) and isinstance(x.ctx, ast.Load) and isinstance(tcls.attrs.get(x.attr), ast.Dict):
+            cands.append(tcls.attrs[x.attr])
+        elif isinstance(x, ast.Name) and isinstance(x.ctx, ast.Load) and isinstance(tinit.module.assigns.get(x.id), ast.Dict):
+            cands.append(tinit.module.assigns[x.id])
+    for d in cands:
+        if d.keys and all(isinstance(k, ast.Constant) and isinstance(k.value, str) for k in d.keys):
             keys |= {k.value for k in d.keys}
     ctx.floor("R15.5", "symbols in the Token kind table", len(keys), 12)
     pattern, pnode = _folded_pattern(tok)
